@@ -201,7 +201,7 @@ def bookkeeping(ctx, crate, crs, e, tag):
         cs = q.conds(b, crs)
         for i, s in writes:
             # value = len (op) 1
-            d = b.origin(s["r"]["o"]) if s["r"]["k"] == "use" else {"k": "?"}
+            d = b.origin(s["r"]["o"]) if s["r"]["k"] == "use" else ({"k": "rvalue", "r": s["r"]} if s["r"]["k"] == "bin" else {"k": "?"})
             okv = False
             if d["k"] == "rvalue" and d["r"]["k"] == "bin" and d["r"]["op"].replace("WithOverflow", "") == op:
                 a, c = kind(b, d["r"]["a"], e), kind(b, d["r"]["b"], e)
@@ -254,7 +254,7 @@ def iter_protocol(ctx, crate, crs, e, tag):
     ctx.ob("iter-protocol" + tag, b.key, "id-and-slot-from-cursor", ok_src, b.loc(),
            "the yielded id and the inspected slot are both computed from the cursor")
     for wi, wj, s in ws:
-        d = b.origin(s["r"]["o"]) if s["r"]["k"] == "use" else {"k": "?"}
+        d = b.origin(s["r"]["o"]) if s["r"]["k"] == "use" else ({"k": "rvalue", "r": s["r"]} if s["r"]["k"] == "bin" else {"k": "?"})
         inc = d["k"] == "rvalue" and d["r"]["k"] == "bin" and d["r"]["op"].replace("WithOverflow", "") == "Add" and \
             kind(b, d["r"]["a"], e) == IDX and kind(b, d["r"]["b"], e) == ("const", 1)
         ctx.ob("iter-protocol" + tag, b.key, "cursor+=1", inc, "%s:%s" % (b.file, s["line"]), "cursor advances by exactly one slot")
